@@ -550,7 +550,7 @@ public:
 
     integer_class get_coeff(unsigned int x) const
     {
-        if (x <= degree())
+        if (x < dict_.size())
             return dict_[x];
         return 0_z;
     }
